@@ -735,7 +735,13 @@ func (g *wGen) has(name string) bool {
 }
 
 func (g *wGen) addHandler() {
+	// mostly a name that is still free (so that programs reach 6 handlers), sometimes a duplicate
 	name := wNames[g.weighted([]int{6, 6, 5, 4, 3, 2, 1})]
+	if g.pick(8) != 0 {
+		for try := 0; try < 20 && g.has(name); try++ {
+			name = wNames[g.pick(len(wNames))]
+		}
+	}
 	h := g.newHandler(name)
 	g.op(&wOp{K: "addhandler", H: h})
 	if !g.has(name) {
